@@ -50,6 +50,32 @@ fn check_ref<T: Copy + PartialEq + kani::Arbitrary>() {
     }
 }
 
+/// zero-sized elements: EVERY length up to usize::MAX is a valid slice (no memory is involved), so
+/// the views must keep any length — the one place where lengths above isize::MAX are legitimate
+#[kani::proof]
+fn p_ref_zst_any_length() {
+    let n: usize = kani::any();
+    let base = core::ptr::NonNull::<Z>::dangling().as_ptr();
+    let s: &[Z] = unsafe { core::slice::from_raw_parts(base as *const Z, n) };
+    let c = CSliceRef::from(s);
+    assert!(c.len() == n && c.as_ptr() == s.as_ptr(), "C12 CSliceRef::from keeps address and length (zero-sized elements, any length)");
+    assert!(c.as_slice().len() == n && (&*c).len() == n, "C12 as_slice / Deref keep the length (zero-sized elements, any length)");
+    let b: &[Z] = c.into();
+    assert!(b.len() == n && b.as_ptr() == s.as_ptr(), "C12 From<CSliceRef> for &[T] keeps the length (zero-sized elements, any length)");
+    // (zero-sized elements occupy no memory: separate views over the same dangling base do not alias)
+    let mk = || CSliceMut::from(unsafe { core::slice::from_raw_parts_mut(base, n) });
+    let m = mk();
+    assert!(m.len() == n && m.as_slice().len() == n && (&*m).len() == n, "C12 CSliceMut keeps the length (zero-sized elements, any length)");
+    let mut m2 = mk();
+    assert!(m2.as_slice_mut().len() == n, "C12 as_slice_mut keeps the length (zero-sized elements, any length)");
+    let m3 = mk();
+    let r2 = CSliceRef::from(&m3);
+    assert!(r2.len() == n);
+    let back: &mut [Z] = mk().into();
+    assert!(back.len() == n, "C12 From<CSliceMut> for &mut [T] keeps the length (zero-sized elements, any length)");
+    kani::cover!(n > isize::MAX as usize, "more than isize::MAX elements");
+    kani::cover!(n == 0, "empty");
+}
 fn check_mut<T: Copy + PartialEq + kani::Arbitrary>() {
     let mut arr: [T; N] = kani::any();
     let orig = arr;
@@ -88,9 +114,14 @@ fn check_mut<T: Copy + PartialEq + kani::Arbitrary>() {
             if l > 0 { m[i] = v; }
         }
         3 => {
-            let mut re = CSliceMut::from(&mut c);
-            assert!(re.as_mut_ptr() == p && re.len() == l, "C12 reborrow keeps address and length");
-            if l > 0 { re[i] = v; }
+            {
+                let mut re = CSliceMut::from(&mut c);
+                assert!(re.as_mut_ptr() == p && re.len() == l, "C12 reborrow keeps address and length");
+                if l > 0 { re[i] = v; }
+            }
+            // the view that was reborrowed is still the same view afterwards (second use)
+            assert!(c.as_mut_ptr() == p && c.len() == l, "C12 a reborrow leaves the original view unchanged (same address and length)");
+            if l > 0 { assert!(c[i] == v, "C12 the write made through the reborrow is visible through the original view"); }
         }
         _ => {
             let b: &[T] = c.into();
